@@ -47,8 +47,11 @@ RECURSIVE DescSeq(_)
 DescSeq(S) == IF S = {} THEN <<>>
               ELSE LET m == CHOOSE x \in S : \A y \in S : x >= y IN <<m>> \o DescSeq(S \ {m})
 
-(* step # 0 *)
+(* step # 0 in the language (step 0 is an invalid-value error there, Eval / Interp decide that before they come here); the public method
+   Variable::slice can be given step 0 directly and then selects nothing (the stepping rule has no element to offer: C05 demands that
+   the call returns at all, finding F19) *)
 SliceL0(len, start, stop, step) ==
+  IF step = 0 THEN <<>> ELSE
   IF step > 0 THEN AscSeq(SelUp(len, start, stop, step))
               ELSE DescSeq(SelDown(len, start, stop, step))
 
@@ -65,6 +68,10 @@ IndexL0(len, n) ==
 (* DEV_SLICE_STEP_OVERFLOW: `i += step` without overflow check             *)
 (*   (variable.rs:473/478 before the repair); with the deviation off the   *)
 (*   loop ends when the addition would leave the i32 range.                *)
+(* NC_METHOD_STEP0_LOOPS: the function as it stood before fix 50269e0      *)
+(*   (finding F19): no guard for step = 0, which takes the `else` branch   *)
+(*   (`while i > b`) and never advances; the model cuts the run after      *)
+(*   len + 1 pushes and reports it as [loops |-> TRUE].                    *)
 (***************************************************************************)
 AdjustEndpoint(len, e, step) ==                       \* variable.rs:485-502
   IF e < 0
@@ -79,11 +86,14 @@ StopL1(len, stop, step) ==
   IF stop.has THEN AdjustEndpoint(len, stop.v, step)
   ELSE IF step < 0 THEN -1 ELSE len
 
-AddOverflows(i, step) == IF step > 0 THEN i > MAXI - step ELSE i < MINI - step
+AddOverflows(i, step) == IF step > 0 THEN i > MAXI - step ELSE IF step < 0 THEN i < MINI - step ELSE FALSE
+Loops(r) == "loops" \in DOMAIN r /\ r.loops
 
 RECURSIVE LoopL1(_, _, _, _, _, _)
 LoopL1(len, i, b, step, out, devs) ==
-  IF (step > 0 /\ i < b) \/ (step < 0 /\ i > b)
+  IF step = 0 /\ i > b /\ Len(out) > len THEN [out |-> out, ovf |-> FALSE, oob |-> FALSE, loops |-> TRUE]
+  ELSE
+  IF (step > 0 /\ i < b) \/ (step <= 0 /\ i > b)
   THEN IF i < 0 \/ i >= len THEN [out |-> out, ovf |-> FALSE, oob |-> TRUE]
        ELSE IF AddOverflows(i, step)
             THEN IF "DEV_SLICE_STEP_OVERFLOW" \in devs
@@ -93,7 +103,7 @@ LoopL1(len, i, b, step, out, devs) ==
   ELSE [out |-> out, ovf |-> FALSE, oob |-> FALSE]
 
 SliceL1(len, start, stop, step, devs) ==
-  IF len = 0 THEN [out |-> <<>>, ovf |-> FALSE, oob |-> FALSE]
+  IF len = 0 \/ (step = 0 /\ "NC_METHOD_STEP0_LOOPS" \notin devs) THEN [out |-> <<>>, ovf |-> FALSE, oob |-> FALSE]
   ELSE LoopL1(len, StartL1(len, start, step), StopL1(len, stop, step), step, <<>>, devs)
 
 (* interpreter.rs:25-31 and variable.rs:361-383 *)
